@@ -41,10 +41,22 @@ pub broadcast axiom fn axiom_header_name_ascii(h: HeaderName)
     ensures all_ascii(#[trigger] h.name);
 
 /// http::Method (rendered by to_string as its name), http::Uri, http::request::Parts, bytes::Bytes
-pub struct Method { pub ghost name: Seq<char> }
-impl Method {
+/// http::Method: `code` identifies the method, `method_name(code)` is its text (uninterpreted: extension methods exist)
+pub struct Method { pub code: u8 }
+pub uninterp spec fn method_name(code: u8) -> Seq<char>;
+impl PartialEq for Method {
     #[verifier::external_body]
-    pub fn to_string(&self) -> (r: String) ensures r@ == self.name { unimplemented!() }
+    fn eq(&self, other: &Self) -> (r: bool) ensures r == (self.code == other.code) { unimplemented!() }
+}
+impl Method {
+    pub const GET: Method = Method { code: 1 };
+    pub const POST: Method = Method { code: 2 };
+    pub const PUT: Method = Method { code: 3 };
+    pub const DELETE: Method = Method { code: 4 };
+    pub const PATCH: Method = Method { code: 5 };
+    pub open spec fn name(self) -> Seq<char> { method_name(self.code) }
+    #[verifier::external_body]
+    pub fn to_string(&self) -> (r: String) ensures r@ == self.name() { unimplemented!() }
 }
 /// `other` stands for scheme and authority (whatever else identifies the URI)
 pub struct Uri { pub ghost path: Seq<u8>, pub ghost query: Option<Seq<u8>>, pub ghost other: int, pub ghost built_from: Option<Seq<u8>> }
